@@ -1669,6 +1669,20 @@ static void cmd_adv(char **tok, int ntok)
         }
         emit_adv("trunc", e, "\"idx\":%d,\"rlen\":%d,\"itype\":%d", i, nl, e->q[i].itype);
     }
+    else if (!strcmp(c, "cut"))
+    {
+        /* cut <ep> <idx> <off> <n> [fix=1]: n bytes at offset off (from the start of the record, header included) are
+           removed - e.g. whole cipher blocks from the middle of a CBC record, so that its tail (MAC end and padding)
+           follows an earlier block; logged as a truncation */
+        int i = idx_arg(e, tok[2]), off = atoi(tok[3]), n = atoi(tok[4]), hl = rec_hdrlen(e), nl;
+        if (off < hl || n <= 0 || off + n > e->q[i].n) skip_action(e, "length");
+        memmove(e->q[i].b + off, e->q[i].b + off + n, e->q[i].n - off - n);
+        nl = e->q[i].n - n;
+        e->q[i].n = nl;
+        e->q[i].origin = 1;
+        if (opt_int(tok, ntok, "fix", 0)) { e->q[i].b[hl - 2] = (nl - hl) >> 8; e->q[i].b[hl - 1] = (nl - hl) & 0xff; }
+        emit_adv("trunc", e, "\"idx\":%d,\"rlen\":%d,\"itype\":%d", i, nl, e->q[i].itype);
+    }
     else if (!strcmp(c, "inject"))
     {
         /* inject <ep> <pos> <hex>  raw bytes appear in ep's stream toward its peer */
